@@ -13,6 +13,9 @@ os.environ["OCTACHECK_NO_INLINE"] = "1"
 from octacheck.source import Project  # noqa: E402
 
 p = Project(os.environ.get("OCTAVE_REPO", "/repo"))
-out = {m.name: sorted(m.functions) for m in p.modules.values()}
+from octacheck.inline import body_digest  # noqa: E402
+
+# qualified name -> digest of the body (so that a helper that was merely RENAMED is recognised as the old one, not as new)
+out = {m.name: {q: body_digest(f.node) for q, f in sorted(m.functions.items())} for m in p.modules.values()}
 json.dump(out, open(os.path.join(HERE, "octacheck", "known_functions.json"), "w"), indent=0, sort_keys=True)
 print(sum(len(v) for v in out.values()), "functions in", len(out), "modules")
